@@ -73,3 +73,37 @@ def _layout(B):
     B.hint("division-unique", Implies(c1 < c2, (c2 - c1) * T >= T))
     B.hint("division-unique2", Implies(c2 < c1, (c1 - c2) * T >= T))
     return [("same-cell", And(c1 == c2, t1 == t2))]
+
+
+# ----------------------------------------------------------------------------- 3-d array -> nested frame: one cell per (instance, column)
+def _to_nested_inputs(B, case):
+    return {"X": _x3(B), "column_names": None, "cells_as_numpy": case == "numpy-cells"}
+
+
+def _to_nested_events(S, evs):
+    """iteration j writes ONE column: a list with one cell per instance, cell i = X[i, j, :] (as Series or as ndarray)"""
+    X = S.A.X
+    n, C, T = X.shape
+    st = [e for e in evs if e.method == "table.setitem"]
+    if len(st) != 1:
+        return False
+    key, col = st[0].args
+    if not isinstance(col, SArr) or col.ndim != 1:
+        return False
+    from pyvc import spec as _S
+    i = _S.CUR.ctx.fresh_int("inst")
+    _S.CUR.ctx.assume(And(i >= 0, i < Z(n)))
+    cell = col.fn(i)
+    vals = cell.values if isinstance(cell, SSeries) else cell
+    if not isinstance(vals, SArr) or vals.ndim != 1:
+        return False
+    want_series = not S.A.cells_as_numpy
+    return And(isinstance(cell, SSeries) == want_series, Eq(col.len, n), Eq(vals.len, T),
+               ForAll(lambda t: Eq(vals.fn(t), X.fn(i, S.k, t)), 0, T, "t"))
+
+
+contract(f"{DP}::from_3d_numpy_to_nested", "C15,C16", cases=["series-cells", "numpy-cells"], inputs=_to_nested_inputs,
+         invariants={0: lambda S: True}, events={0: _to_nested_events},
+         ensures=[("returns-the-table-it-filled", lambda A, r: r.__class__.__name__ == "STable")],
+         frame=lambda A: [A.X],
+         notes=["default column names; the DataFrame is an accumulator of column writes (pandas side: recorded events only)"])
